@@ -46,7 +46,7 @@ class Lock:
 
 def build_tools():
     os.makedirs(BIN, exist_ok=True)
-    for t in ("facts", "gotolean"):
+    for t in ("facts", "gotolean", "access"):
         p = run(["go", "build", "-o", os.path.join(BIN, t), "./cmd/" + t], cwd=os.path.join(VERIF, "tools"), env=GOENV)
         if p.returncode != 0:
             raise RuntimeError("cannot build tool %s: %s" % (t, p.stderr[-2000:]))
@@ -68,7 +68,7 @@ def regenerate():
     errs = []
     gen = os.path.join(LEAN, "Gnet", "Gen")
     os.makedirs(gen, exist_ok=True)
-    for tool, out in (("facts", "Facts.lean"), ("gotolean", "Arith.lean")):
+    for tool, out in (("facts", "Facts.lean"), ("gotolean", "Arith.lean"), ("access", "Access.lean")):
         tmp = os.path.join(gen, "." + out + ".tmp")
         p = run([os.path.join(BIN, tool), REPO, tmp], env=GOENV)
         if p.returncode != 0:
